@@ -29,6 +29,8 @@ class Link:
         self.frames_c2s = 0
         self.frames_s2c = 0
         self.pumping = False
+        self.q_c2s = []     # frames in flight, in order
+        self.q_s2c = []
 
     def _opened(self):
         # called from inside the client's connect(): the server side of the
@@ -50,11 +52,23 @@ class Link:
                 out.append(P.Packet(encoded_packet=o.encode(b64=False)))
         return out
 
-    def pump(self, *_):
-        """Move frames both ways until nothing is in flight."""
+    def pump(self, *_, max_c2s=None, max_s2c=None):
+        """Move frames both ways until nothing is in flight.  With max_c2s /
+        max_s2c at most that many frames are delivered in that direction
+        during this call; the others stay in flight (in order) and are
+        delivered by a later pump."""
         if self.pumping:
             return
         self.pumping = True
+        left = {'c2s': max_c2s, 's2c': max_s2c}
+
+        def allowed(d):
+            if left[d] is None:
+                return True
+            if left[d] > 0:
+                left[d] -= 1
+                return True
+            return False
         try:
             if getattr(self, 'need_open', False):
                 self.need_open = False
@@ -63,28 +77,38 @@ class Link:
                 moved = False
                 out = self.ch.take_outbox()
                 if out and self.eio_sid is not None:
+                    self.q_c2s.extend(self._transfer(out))
+                while self.q_c2s and self.eio_sid is not None:
+                    s = self.sh.eio.sockets.get(self.eio_sid)
+                    if s is None or s.closed:
+                        del self.q_c2s[:]
+                        break
+                    if not allowed('c2s'):
+                        break
+                    p = self.q_c2s.pop(0)
                     moved = True
-                    for p in self._transfer(out):
-                        self.frames_c2s += 1
-                        s = self.sh.eio.sockets.get(self.eio_sid)
-                        if s is None or s.closed:
-                            break
-                        self.sh.do(s.receive(p))
-                        self.sh.settle()
+                    self.frames_c2s += 1
+                    self.sh.do(s.receive(p))
+                    self.sh.settle()
                 if self.aio:
                     self.loop.run_until_idle()
                     self.sh.settle()
                 back = self.sh.drain(self.eio_sid) if self.eio_sid else []
                 if back:
+                    self.q_s2c.extend(self._transfer(back))
+                while self.q_s2c:
+                    if self.ch.eio.state != 'connected':
+                        del self.q_s2c[:]
+                        break
+                    if not allowed('s2c'):
+                        break
+                    p = self.q_s2c.pop(0)
                     moved = True
-                    for p in self._transfer(back):
-                        self.frames_s2c += 1
-                        if self.ch.eio.state != 'connected':
-                            break
-                        self.ch.do(self.ch.eio._receive_packet(p))
-                        if self.aio:
-                            self.loop.run_until_idle()
-                if not moved:
+                    self.frames_s2c += 1
+                    self.ch.do(self.ch.eio._receive_packet(p))
+                    if self.aio:
+                        self.loop.run_until_idle()
+                if not moved and not self.ch.outbox:
                     return
             raise core.HarnessError('link never becomes quiet')
         finally:
